@@ -85,7 +85,21 @@ func genQuery(r *Rng, m *qMeta) []string {
 	G := m.Groups
 	small := !m.Big
 	for {
-		switch r.Intn(72) {
+		switch r.Intn(76) {
+		case 72, 73:
+			// tables of the WITH clause referenced once per outer row (every reference gets the rows, none may
+			// write into them), with a value computed from the outer row inside the sub-query
+			return []string{r.PickS(
+				"WITH t AS (SELECT id, w FROM b) SELECT a.id, (SELECT id FROM t ORDER BY w * a.g, id LIMIT 1) AS best FROM a;",
+				"WITH t AS (SELECT id, w FROM b) SELECT a.id, (SELECT COUNT(*) FROM t WHERE t.w + a.g > 3) AS n, (SELECT MAX(w - a.id % 5) FROM t) AS m FROM a;",
+				"WITH t (k) AS (SELECT g FROM b) SELECT a.id, (SELECT LISTAGG(STRING(k * a.g), ',') WITHIN GROUP (ORDER BY k * a.g, k) FROM t) AS l FROM a;",
+				"WITH t AS (SELECT id, g FROM b), u AS (SELECT g, id FROM t) SELECT a.id, (SELECT id FROM u WHERE u.g = a.g ORDER BY id * (1 + a.id % 3) DESC LIMIT 1) AS x, (SELECT COUNT(*) FROM t x JOIN u y ON x.id = y.id AND x.g >= a.g) AS c FROM a;")}
+		case 74, 75:
+			// functions that are objects with state inside (formatters, parsers), from every worker
+			return []string{r.PickS(
+				"SELECT id, FORMAT('%05d|%s|%s', id, s, g), FORMAT('%s', v) FROM a;",
+				"SELECT id, FORMAT('%-6s|%+d|%8.3f', s, g, v / 3.0), NUMBER_FORMAT(id * 1000.5, 2, '.', ','), FORMAT('%q %x', s, id) FROM a;",
+				"SELECT id, DATETIME_FORMAT(ADD_DAY(@d, id), '%Y-%m-%d %H:%i:%s'), FORMAT('%d/%s', id, s), JSON_OBJECT(FORMAT('%s', s) AS f) FROM a;")}
 		case 69, 70:
 			// prepared statements and cursors whose placeholders are evaluated for every record (by every worker)
 			return []string{"PREPARE pq FROM 'SELECT id, v + ? AS w, s || ? AS t FROM a WHERE IFNULL(v, 0) > ? AND s <> ?';", "EXECUTE pq USING 1, 'x', 0, 'none';", "EXECUTE pq USING @n, @x, -100, (SELECT MIN(s) FROM a);",
